@@ -913,6 +913,32 @@ class CallMixin:
                     if ok:
                         return StrV(pieces2)
                 return Term("format", (recv,) + tuple(args) + tuple(kwargs.values()), kind="str", node=node)
+            if attr in ("rstrip", "lstrip", "strip") and len(args) <= 1 and (not args or (isinstance(args[0], Const) and isinstance(args[0].value, str))):
+                chars = args[0].value if args else None
+                if isinstance(recv, Const):
+                    return Const(getattr(recv.value, attr)(chars) if chars is not None else getattr(recv.value, attr)())
+                if isinstance(recv, StrV) and chars is not None:
+                    pieces3 = list(recv.pieces)
+                    exact = True
+                    if attr in ("rstrip", "strip"):
+                        if pieces3 and isinstance(pieces3[-1], str):
+                            t_ = pieces3[-1].rstrip(chars)
+                            if t_ == "" and len(pieces3) > 1:
+                                exact = False         # the whole literal tail is stripped: the value before it decides
+                            pieces3[-1] = t_
+                        else:
+                            exact = False
+                    if attr in ("lstrip", "strip"):
+                        if pieces3 and isinstance(pieces3[0], str):
+                            t_ = pieces3[0].lstrip(chars)
+                            if t_ == "" and len(pieces3) > 1:
+                                exact = False
+                            pieces3[0] = t_
+                        else:
+                            exact = False
+                    if exact:
+                        return StrV(pieces3)
+                return Term("mcall", (recv, attr) + tuple(args), kind="str", node=node)
             if attr in ("split", "rsplit", "splitlines"):
                 return Term("mcall", (recv, attr) + tuple(args), kind="list", node=node)
             if attr in ("encode",):
